@@ -395,8 +395,8 @@ def register3(R):
     R.add(Contract(L + 'ConfigList._validate_index', [lst(), P.val('index', 'prim'), P.val('strict', 'bool')],
                    requires=lambda c: [('len-nonneg', c.pre.l(c.ref('self')).len >= 0)], pure=True,
                    raises=[Raises('TypeError', when=lambda c: z3.Not(_isint(c['index'])), exact=True, name='C17.TypeError-iff-not-integer'),
-                           Raises('IndexError', when=lambda c: z3.And(_isint(c['index']), vi_bad(c)), exact=True, name='C17.IndexError-iff-strict-and-out-of-range')],
-                   ensures=[('C17.index-normalised-into-range', lambda c: z3.Implies(_isint(c['index']), z3.And(
+                           Raises('IndexError', when=lambda c: z3.And(_isint(c['index']), vi_bad(c)), exact=True, name='C02+C17.IndexError-iff-strict-and-out-of-range')],
+                   ensures=[('C02+C17.index-normalised-into-range', lambda c: z3.Implies(_isint(c['index']), z3.And(
                        _isint(c.rt), z3.Implies(is_int(c['index']), is_int(c.rt)), _iv(c.rt) == clamp(_iv(c['index']), c.pre.l(c.ref('self')).len),
                        z3.Implies(b_of(c['strict']), z3.And(0 <= _iv(c.rt), _iv(c.rt) < c.pre.l(c.ref('self')).len)))))],
                    result=P.val('result', 'prim'), props=('C17', 'C02')))
